@@ -7,14 +7,16 @@ DEDUCTIVE = [
     {"module": "rnapolis.common", "sidecar": "contracts.annotator_c",
      "targets": ["LeontisWesthof.reverse", "lemma:lw_reverse_involution", "lemma:saenger_pinned_table_reverse_symmetric",
                  "lemma:saenger_real_table_reverse_symmetric"]},
-    {"module": "rnapolis.annotator", "sidecar": "contracts.annotator_c", "targets": ["detect_saenger", "detect_bph_br_classification"]},
-    {"module": "rnapolis.tertiary", "sidecar": "contracts.annotator_c", "targets": ["Residue3D.find_atom"]},
+    {"module": "rnapolis.annotator", "sidecar": "contracts.annotator_c",
+     "targets": ["detect_saenger", "detect_bph_br_classification", "find_stackings"]},
+    {"module": "rnapolis.tertiary", "sidecar": "contracts.annotator_c", "targets": ["Residue3D.find_atom", "Residue3D.__lt__"]},
 ]
 TRUSTED = [
     "CPython 3.12 (enum lookup by name, dict lookup, f-strings, tuple comparison as encoded by pyvc)",
     "rnapolis.tertiary.torsion_angle(a1, a2, a3, a4): a real number depending only on the four (frozen) atoms, AttributeError on None "
     "(its value is the subject of C18; here only the sign test -90 < degrees(t) < 90 matters and both sides use the same uninterpreted symbols)",
     "math.degrees: uninterpreted in these targets (nothing assumed)",
+    "for find_stackings: the trusted externals of props/C04.py (KD-tree query_pairs, sorted, sum, degrees monotone, numpy norm/array; acos, dot, squared distance uninterpreted)",
     "ordered_set.OrderedSet, collections.defaultdict: NOT modelled - merge_and_clean_bph_br is checked by exhaustive evaluation of the real function only (see EXPLANATION)",
     "z3 / cvc5 string and array theories",
 ]
@@ -26,6 +28,7 @@ ASSUMPTIONS = [
     "comment at annotator.py:99 cites Zirbel et al. but does not spell the table out, so the BPh/BR pin is a regression pin of the table (an edited class is a named "
     "violation), not an independent derivation; independent of the pin are the clauses 'class in 0..9 or None' and 'class is a function of (base, donor atom name, "
     "presence of the two reference atoms, torsion sign)'",
+    "for find_stackings: the preconditions and definitional lemmas listed in props/C04.py ASSUMPTIONS",
     "the symmetry lemma is about one-character base names (len == 1): for longer names 'a'+'b' is ambiguous",
     "A-real; the torsion sign test of the amino donors is sandwiched by EPS = 1e-6 degrees around +-90 (inside (-90+EPS, 90-EPS) => cis class, outside "
     "[-90-EPS, 90+EPS] => trans class, in between either), following 'contacts within 1e-6 of a threshold are undecided'",
@@ -46,8 +49,11 @@ EXPLANATION = (
     "together count as 4, 7 and 9 as 8, so 3/5 resp. 7/9 are never reported when both were present), plus all two-pair inputs with up to 2 classes per pair "
     "(independence of pairs on that domain). For (d) this is a finite check, not a proof for arbitrary input lists: independence of different pairs beyond that domain "
     "and insensitivity to repeated triples are not proved (the function needs OrderedSet/defaultdict objects allocated inside loops, which pyvc does not model soundly yet). "
-    "What stays bounded: all list-level clauses of C11 on find_pairs / find_stackings output (no repeats, no self pairs, participants in the model, orientation, sorting, "
-    "contact soundness) - for stackings the orientation / once / sorted clauses are proved under C04."
+    "Stackings: find_stackings is under contract (the C04 contract, see props/C04.py for its assumptions: distinct centroids and identifiers of participating residues, "
+    "assumed KD-tree / sorted / sum contracts): every reported stacking joins two different participating residues of the analysed model, lists the lower one "
+    "(model, chain, number, insertion code) first, no residue pair is reported twice, and the list is sorted by that order. "
+    "What stays bounded: all list-level clauses of C11 on find_pairs output (no repeats, no self pairs, participants in the model, orientation, sorting, contact soundness, "
+    "one class per pair end to end)."
 )
 
 def bounded(tier, seed):
